@@ -56,7 +56,7 @@ func (c11) Generate(r *sim.Rand, tier string) *sim.Scenario {
 		O = r.Range(1, 4)
 	}
 	D := r.Range(1, 5)
-	batch := []int{1, 1, 2, 3, 4, 6}[r.Intn(6)]
+	batch := []int{1, 1, 2, 3, 4, 6, 1, 2, 5, 17, 24, 33}[r.Intn(12)]
 	nb := r.Range(1, 3)
 	act := r.Intn(6)
 	// favour sensible pairings but keep all
